@@ -298,10 +298,11 @@ def dup_edge_games():
 
 
 @st.composite
-def twin_games(draw, **kw):
+def twin_games(draw, renamed=False, **kw):
     """A stopping game in which a Player 1 state and a Player 2 state have EQUAL transition lists
     (and, for half of the cases, share the same list object): the twin of a player state `a` gets
-    the other owner and a's successors, and is wired in below one of a's predecessors."""
+    the other owner and a's successors, and is wired in below one of a's predecessors.
+    renamed=True: the twin keeps a's OWNER and successor sequence but calls its actions differently."""
     g = draw(stopping_games(**kw))
     n = len(g["players"])
     cands = [s for s in range(n) if g["players"][s] in (P1, P2) and not all(t == s for _, t in g["transition_list"][s])]
@@ -310,9 +311,15 @@ def twin_games(draw, **kw):
     a = draw(st.sampled_from(cands))
     twin = n
     g = copy_game(g)
-    g["players"].append(P2 if g["players"][a] == P1 else P1)
-    g["rewards"].append(draw(st.sampled_from(REWARD_POOL)))
-    g["transition_list"].append(list(g["transition_list"][a]))
+    if renamed:
+        g["players"].append(g["players"][a])
+        fresh = draw(st.permutations(["x", "y", "z", "w", "u", "v", "q"]))
+        g["rewards"].append(draw(st.sampled_from(REWARD_POOL)))
+        g["transition_list"].append([(fresh[i], t) for i, (_, t) in enumerate(g["transition_list"][a])])
+    else:
+        g["players"].append(P2 if g["players"][a] == P1 else P1)
+        g["rewards"].append(draw(st.sampled_from(REWARD_POOL)))
+        g["transition_list"].append(list(g["transition_list"][a]))
     preds = [s for s in range(n) if s != a and any(t == a for _, t in g["transition_list"][s])]
     if preds:
         l = draw(st.sampled_from(preds))
@@ -325,7 +332,7 @@ def twin_games(draw, **kw):
         elif len(lst) < len(NAMES):
             used = {x for x, _ in lst}
             lst.insert(draw(st.integers(0, len(lst))), ([x for x in NAMES if x not in used][0], twin))
-    alias = [[a, twin]] if draw(st.booleans()) else []
+    alias = [[a, twin]] if not renamed and draw(st.booleans()) else []
     return dict(game=g, alias=alias)
 
 
